@@ -259,8 +259,8 @@ def key_of(name, s, runs):
     if name == "C18_IpBounds":
         how = "nan" if any(w["s"] == 0 for w in a["ip"]) else "out_of_range"
         return "C18|%s|fault=%s|ip=%s" % (name, s["run"]["fault"], how)
-    if "Invariant" in name:
-        cols = [c for c in differing_columns(a, b) if (c in ("line", "thv", "tlv")) == name.endswith("Branch")]
+    if "Invariant" in name and not name.endswith("Branch"):     # bus clauses: which result columns differ is part of the class
+        cols = [c for c in differing_columns(a, b) if c not in ("line", "thv", "tlv")]
         return "C18|%s|fault=%s|%s|cols=%s" % (name, s["run"]["fault"], feature(s["cfg"]), "+".join(cols) or "none")
     return "C18|%s|fault=%s|%s" % (name, s["run"]["fault"], feature(s["cfg"]))
 
@@ -271,7 +271,8 @@ def run(tier, seed, replay=None):
     if replay:
         c = replay["case"]
         seed = c.get("seed", seed)
-        states = [{k: c[k] for k in ("cfg", "run", "ref", "kind", "call", "refcall", "req", "net")}]
+        states = [{k: c[k] for k in ("cfg", "run", "ref", "kind", "call", "refcall", "req")}]
+        states[0]["net"] = c.get("net") or _netspec(c["cfg"], seed)
         m_states = m_trans = 1
         runs, failures, stats = evaluate_replay(states[0], seed)
     else:
@@ -296,10 +297,11 @@ def run(tier, seed, replay=None):
     inst, nontriv = {}, 0
     for s in states:
         a, b = runs[_key(s["cfg"], s["run"])], runs[_key(s["cfg"], s["ref"])]
-        if s["req"] and a["ok"] and b["ok"]:
-            nontriv += 1
+        if a["ok"] and b["ok"]:
             for cl in s["req"]:
                 inst[cl] = inst.get(cl, 0) + 1
+            if set(s["req"]) - {"C18_FaultedBusesReported"}:
+                nontriv += 1
     step = max(1, len(states) // 3)
     v.coverage = {
         "states": m_states + stats["states"], "transitions": m_trans + stats["generated"],
@@ -308,7 +310,7 @@ def run(tier, seed, replay=None):
         "rule": "every state of ShortCircuit.tla = (cfg: gen/sgen/ring x case x ip mode x branch_results x lv_tol; run: fault x "
                 "sn_mva x inverse_y x faulted-bus subset; ref: run with one option reset); each distinct (cfg, run) is one real "
                 "calc_sc call on the 5-bus template (seeded +-10% parameter jitter per cfg); non-trivial = the spec requires "
-                "at least one clause on the state and both calls returned",
+                "at least one numeric relation (anything but 'rows are reported') on the state and both calls returned",
         "clause_instances": dict(sorted(inst.items())),
         "calc_sc_calls": len(runs), "calc_sc_raised": len(raised), "model_states": m_states, "timing_s": dict(TIMING),
         "samples": [full_case(states[k], runs, seed) for k in range(min(1, len(states) - 1), len(states), step)][:3],
